@@ -12,18 +12,31 @@ static const double POISON = 1e10;
 void check_C04(Src &s, Ctx &ctx) {
     SpecOpts so; so.min_outs = 1; so.max_outs = 3; so.cap = cfg().tier ? 350 : 250;
     GridState st; st.cap = so.cap; st.ctx = &ctx;
+    // class "adaptive-gaps" (one case in sixteen, from the last byte): the standard adaptive loop on a 2-3 dimensional local polynomial grid with an anisotropic model,
+    // several rounds of selective surplus refinement: hierarchies with gaps, where the surpluses and the weights are computed by different algorithms
+    const bool gaps_class = s.n >= 4 && (s.p[s.n - 1] % 16) == 9;
     st.spec = decode_spec(s, so); st.vm.decode(s);
+    if (gaps_class) { GridSpec &sp = st.spec; GridSpec g0; sp = g0; sp.family = F_LOCALP; sp.dims = 2 + s.pick(2); sp.outs = 1 + s.pick(2); static const TypeOneDRule lr[] = {rule_localp, rule_localp, rule_localp0, rule_semilocalp, rule_localpb}; sp.rule = lr[s.pick(5)];
+        sp.order = 1 + s.pick(3); sp.depth = 1 + s.pick(2); static const double strong[] = {2.0, 1.3, 0.9}, weak[] = {0.15, 0.3, 0.0}; int major = s.pick(sp.dims); for (int j = 0; j < 4; j++) st.vm.w[j] = (j == major) ? strong[s.pick(3)] : weak[s.pick(3)]; }
     make_grid(st.g, st.spec, so.cap);
-    ctx.log(st.spec.text()); ctx.log(st.vm.text());
+    ctx.log(st.spec.text() + (gaps_class ? " (class adaptive-gaps)" : "")); ctx.log(st.vm.text());
     static const std::vector<int> kinds = {OP_LOAD, OP_REF_SURP, OP_REF_SURP, OP_REF_SURP, OP_REF_ANISO, OP_REF_ANISO, OP_RELOAD, OP_UPDATE, OP_UPDATE, OP_CLEAR_REF, OP_MERGE, OP_MERGE, OP_SET_COEFF, OP_SET_COEFF,
                                            OP_BEGIN_CONSTR, OP_BEGIN_CONSTR, OP_CANDIDATES, OP_LOAD_CONSTR, OP_FINISH_CONSTR, OP_ROUNDTRIP};
-    int nops = 1 + s.pick(12);
-    run_history(s, st, kinds, nops, true, [&](const Op &) {});
+    if (gaps_class) {
+        Op ld; ld.kind = OP_LOAD; apply_op(st, ld); static const double tols[] = {1e-2, 3e-3, 1e-3, 3e-2, 1e-4};
+        Op rf; rf.kind = OP_REF_SURP; rf.tol = tols[s.pick(5)]; rf.crit = s.pick(3) == 0 ? refine_direction_selective : refine_classic; rf.output = s.pick(2) ? -1 : 0; rf.variant = 1;
+        int rounds = 3 + s.pick(4); for (int r = 0; r < rounds && st.g.getNumLoaded() < st.cap; r++) { if (!apply_op(st, rf) || st.g.getNumNeeded() == 0) break; if (!apply_op(st, ld)) break; }
+        if (s.chance(1, 3)) { Op rl; rl.kind = OP_RELOAD; apply_op(st, rl); }
+        ctx.label("class:adaptive-gaps");
+    } else {
+        int nops = 1 + s.pick(12);
+        run_history(s, st, kinds, nops, true, [&](const Op &) {});
+    }
     auto &g = st.g; const int d = st.spec.dims, outs = st.spec.outs;
     if (g.getNumLoaded() == 0) { ctx.label("skip:no-values"); return; }
     const int np = g.getNumPoints(); const bool fourier = g.isFourier(); const bool conformal = g.isSetConformalTransformASIN();
     const bool local = g.isLocalPolynomial() || g.isWavelet();
-    const double tau = g.isWavelet() ? 1e-8 : 1e-10;
+    const double tau = g.isWavelet() ? 1e-6 : 1e-10;   // wavelet weights come from an iterative solve (GMRES, residual 1e-12) of a matrix whose conditioning grows with the grid: 1.3e-7 relative seen at 300 points in 3-D
     const double tau_diff = (g.isWavelet() || fourier) ? 1e-7 : 1e-9;   // derivative weights of the Fourier basis cancel to ~1e-10 absolute
     bool coeff_overwritten = !st.dict_valid;
     bool lp_complete = !g.isLocalPolynomial() || parent_complete(st);
